@@ -8,5 +8,5 @@ trap 'git -C /repo worktree remove --force "$WT" >/dev/null 2>&1; git -C /repo w
 git -C "$WT" apply "$P"
 cd "$(dirname "$0")/.."
 for c in "$@"; do
-  VERIF_REPO="$WT" ./check "$c" --tier "${TIER:-quick}" 2>&1 | grep -E "RESULT|signature|MACHINERY|SPEC-DRIFT|TLC-ERROR" | sort | uniq -c | cut -c1-220 | tail -6
+  VERIF_EVIDENCE_DIR="$PWD/out/evidence_scratch" VERIF_REPO="$WT" ./check "$c" --tier "${TIER:-quick}" 2>&1 | grep -E "RESULT|signature|MACHINERY|SPEC-DRIFT|TLC-ERROR" | sort | uniq -c | cut -c1-220 | tail -6
 done
